@@ -75,13 +75,19 @@ ENF_CONFIGS = {
 }
 
 STORE_CONFIGS = {
-    "quick": dict(NC=3, Groups="{1,2,3}", MaxShort=0, Long=100, NR=2, MaxT=1),
-    "thorough": dict(NC=4, Groups="{1,2,3}", MaxShort=0, Long=100, NR=2, MaxT=1),
+    "quick": dict(NC=3, Groups="{1,2,3}", MaxShort=0, Long=100, NR=2, MaxT=1, NK=0),
+    "thorough": dict(NC=4, Groups="{1,2,3}", MaxShort=0, Long=100, NR=2, MaxT=1, NK=0),
+}
+# two concurrent callers: every pair of store calls (also on different classes in thorough), the second
+# placed after transaction 0, 1, 2 of the first
+CONC_CONFIGS = {
+    "quick": dict(NC=1, Groups="{1}", MaxShort=0, Long=100, NR=2, MaxT=0, NK=3),
+    "thorough": dict(NC=2, Groups="{1}", MaxShort=0, Long=100, NR=2, MaxT=0, NK=3),
 }
 # all five classes (both networks, two addresses of one network), one reason, no clock
-WIDE_CONFIG = dict(NC=5, Groups="{1,2,3}", MaxShort=0, Long=100, NR=1, MaxT=0)
+WIDE_CONFIG = dict(NC=5, Groups="{1,2,3}", MaxShort=0, Long=100, NR=1, MaxT=0, NK=0)
 # real sleeps: thorough tier only, kept small
-TIMED_CONFIG = dict(NC=2, Groups="{1,3}", MaxShort=2, Long=100, NR=1, MaxT=3)
+TIMED_CONFIG = dict(NC=2, Groups="{1,3}", MaxShort=2, Long=100, NR=1, MaxT=3, NK=0)
 
 ASSUMPTIONS = [
     "ban expiries are persisted in whole Unix seconds: a query issued in the wall-clock second that contains the "
@@ -112,6 +118,11 @@ def label(act):
         if op == "Unban":
             return "Unban(i%d)=%s" % (act["i"], res)
         return "%s=%s" % (op, res)
+    if act.get("k", -1) >= 0:     # two concurrent callers
+        second = {"op": act["op2"], "c": act["c2"], "g": act["g2"], "d": act["d2"], "r": act["r2"],
+                  "res": act["res2"], "b": act["b2"], "rr": act["rr2"]}
+        first = dict(act, k=-1)
+        return "%s||after-tx%d||%s" % (label(first), act["k"], label(second))
     if op == "Ban":
         return "Ban(c%d,g%d,d%d,r%d)=%s" % (act["c"], act["g"], act["d"], act["r"], res)
     if op == "Unban":
@@ -315,7 +326,9 @@ def run(prop_id, tier, seed, replay=None):
             enf_bin = family.build_overlay_test(PKG_ENF, [DRIVER_ENF], os.path.join(sc, "neutrino.test"))
             # once a part has produced a new violation the verdict is settled; the remaining
             # parts are skipped (evidence says which ran)
-            plan = [lambda: _store_part("store", STORE_CONFIGS[tier], tier, seed, rng, sc, store_bin,
+            plan = [lambda: _store_part("store-conc", CONC_CONFIGS[tier], tier, seed, rng, sc, store_bin,
+                                        walks=500 if thorough else 0, depth=30, env={"VERIF_SOON": "0"}),
+                    lambda: _store_part("store", STORE_CONFIGS[tier], tier, seed, rng, sc, store_bin,
                                         walks=2000 if thorough else 0, depth=40,
                                         env={"VERIF_SOON": "1" if thorough else "0"}),
                     lambda: _enf_part("enforce", ENF_CONFIGS[tier], tier, seed, rng, sc, enf_bin,
@@ -326,7 +339,7 @@ def run(prop_id, tier, seed, replay=None):
                 plan.append(lambda: _store_part("store-timed", TIMED_CONFIG, tier, seed, rng, sc, store_bin,
                                                 max_len=24, env={"VERIF_PAR": "48", "VERIF_SOON": "0"}))
             only = os.environ.get("VERIF_C13_PARTS")      # self-test aid: run a subset of the parts
-            names = ["store", "enforce"] + (["store-wide", "store-timed"] if thorough else [])
+            names = ["store-conc", "store", "enforce"] + (["store-wide", "store-timed"] if thorough else [])
             for nm, step in zip(names, plan):
                 if only and nm not in only.split(","):
                     continue
